@@ -9,6 +9,157 @@ import TJ.Gen.MiniC.Prog
 namespace TJ.MiniC
 open TJ.Gen.MiniC
 
+/-! ### one-step unfolding of `exec`, one lemma per statement form.
+  Symbolic execution rewrites with these (never with `exec` itself).  The fuel is kept as
+  nested applications of `Fu`: simp does not renormalise it, and no step relies on `n + 7 ≡ (n + 6) + 1` up to definitional
+  unfolding (checking that, the kernel unfolds `exec` on both sides and evaluates it — minutes, then `deep recursion`). -/
+
+/-- one more unit of fuel; a separate constant so that `simp` never renormalises fuel expressions -/
+def Fu (n : Nat) : Nat := n + 1
+
+theorem exec_skip (prog : Program) (fuel : Nat) (env : Env) (st : St) :
+    exec prog (Fu fuel) .skip env st = .ok .normal env st := by unfold Fu; rw [exec]; try rfl
+theorem exec_brk (prog : Program) (fuel : Nat) (env : Env) (st : St) :
+    exec prog (Fu fuel) .brk env st = .ok .brk env st := by unfold Fu; rw [exec]; try rfl
+theorem exec_assign (prog : Program) (fuel : Nat) (x : Nat) (e : Expr) (env : Env) (st : St) :
+    exec prog (Fu fuel) (.assign x e) env st =
+      match evalE env e with
+      | .error k => .fault k st.leak
+      | .ok v => .ok .normal (setVar env x v) st := by unfold Fu; rw [exec]; try rfl
+theorem exec_seq (prog : Program) (fuel : Nat) (a b : Stmt) (env : Env) (st : St) :
+    exec prog (Fu fuel) (.seq a b) env st =
+      match exec prog fuel a env st with
+      | .ok .normal env1 st1 => exec prog fuel b env1 st1
+      | r => r := by unfold Fu; rw [exec]; try rfl
+theorem exec_loop (prog : Program) (fuel : Nat) (body : Stmt) (env : Env) (st : St) :
+    exec prog (Fu fuel) (.loop body) env st =
+      match exec prog fuel body env st with
+      | .ok .normal env1 st1 => exec prog fuel (.loop body) env1 st1
+      | .ok .brk env1 st1 => .ok .normal env1 st1
+      | r => r := by unfold Fu; rw [exec]; try rfl
+theorem exec_ite (prog : Program) (fuel : Nat) (c : Expr) (a b : Stmt) (env : Env) (st : St) :
+    exec prog (Fu fuel) (.ite c a b) env st =
+      match evalE env c with
+      | .error k => .fault k st.leak
+      | .ok (v, l) =>
+        if l ≠ .pub then .fault .taint st.leak else
+        if v != 0 then exec prog fuel a env { st with leak := .br (v != 0) :: st.leak }
+        else exec prog fuel b env { st with leak := .br (v != 0) :: st.leak } := by unfold Fu; rw [exec]; try rfl
+theorem exec_ret_some (prog : Program) (fuel : Nat) (e : Expr) (env : Env) (st : St) :
+    exec prog (Fu fuel) (.ret (some e)) env st =
+      match evalE env e with
+      | .error k => .fault k st.leak
+      | .ok v => .ok (.ret (some v)) env st := by unfold Fu; rw [exec]; try rfl
+theorem exec_load (prog : Program) (fuel : Nat) (x : Nat) (t : Ty) (addr : Expr) (env : Env) (st : St) :
+    exec prog (Fu fuel) (.load x t addr) env st =
+      match evalE env addr with
+      | .error k => .fault k st.leak
+      | .ok (p, lp) =>
+        if lp ≠ .pub then .fault .taint st.leak else
+        match resolve st.mem p t.bytes with
+        | .error k => .fault k (.rd p t.bytes :: st.leak)
+        | .ok (b, off) =>
+          match readLE (blockBytes st.mem b) off t.bytes with
+          | none => .fault .uninit (.rd p t.bytes :: st.leak)
+          | some v => .ok .normal (setVar env x v) { st with leak := .rd p t.bytes :: st.leak } := by unfold Fu; rw [exec]; try rfl
+theorem exec_store (prog : Program) (fuel : Nat) (t : Ty) (addr e : Expr) (env : Env) (st : St) :
+    exec prog (Fu fuel) (.store t addr e) env st =
+      match evalE env addr with
+      | .error k => .fault k st.leak
+      | .ok (p, lp) =>
+        if lp ≠ .pub then .fault .taint st.leak else
+        match evalE env e with
+        | .error k => .fault k st.leak
+        | .ok (v, lv) =>
+          match resolve st.mem p t.bytes with
+          | .error k => .fault k (.wr p t.bytes :: st.leak)
+          | .ok (b, off) =>
+            .ok .normal env { st with leak := .wr p t.bytes :: st.leak,
+                                       mem := setBlock st.mem b (writeLE (blockBytes st.mem b) off v lv t.bytes) } := by unfold Fu; rw [exec]; try rfl
+
+/-! the same, opening one named fuel level (`fuel = Fu f'`) at the rewritten occurrence only: every other `exec` in the goal keeps a
+  variable as fuel and so cannot be evaluated by the kernel when it compares terms up to definitional equality. -/
+
+theorem exec_skip' (prog : Program) {fuel f' : Nat} (hf : fuel = Fu f') (env : Env) (st : St) :
+    exec prog fuel .skip env st = .ok .normal env st := by subst hf; exact exec_skip prog f' env st
+theorem exec_brk' (prog : Program) {fuel f' : Nat} (hf : fuel = Fu f') (env : Env) (st : St) :
+    exec prog fuel .brk env st = .ok .brk env st := by subst hf; exact exec_brk prog f' env st
+theorem exec_assign' (prog : Program) {fuel f' : Nat} (hf : fuel = Fu f') (x : Nat) (e : Expr) (env : Env) (st : St) :
+    exec prog fuel (.assign x e) env st =
+      match evalE env e with
+      | .error k => .fault k st.leak
+      | .ok v => .ok .normal (setVar env x v) st := by subst hf; exact exec_assign prog f' x e env st
+theorem exec_seq' (prog : Program) {fuel f' : Nat} (hf : fuel = Fu f') (a b : Stmt) (env : Env) (st : St) :
+    exec prog fuel (.seq a b) env st =
+      match exec prog f' a env st with
+      | .ok .normal env1 st1 => exec prog f' b env1 st1
+      | r => r := by subst hf; exact exec_seq prog f' a b env st
+theorem exec_loop' (prog : Program) {fuel f' : Nat} (hf : fuel = Fu f') (body : Stmt) (env : Env) (st : St) :
+    exec prog fuel (.loop body) env st =
+      match exec prog f' body env st with
+      | .ok .normal env1 st1 => exec prog f' (.loop body) env1 st1
+      | .ok .brk env1 st1 => .ok .normal env1 st1
+      | r => r := by subst hf; exact exec_loop prog f' body env st
+theorem exec_ite' (prog : Program) {fuel f' : Nat} (hf : fuel = Fu f') (c : Expr) (a b : Stmt) (env : Env) (st : St) :
+    exec prog fuel (.ite c a b) env st =
+      match evalE env c with
+      | .error k => .fault k st.leak
+      | .ok (v, l) =>
+        if l ≠ .pub then .fault .taint st.leak else
+        if v != 0 then exec prog f' a env { st with leak := .br (v != 0) :: st.leak }
+        else exec prog f' b env { st with leak := .br (v != 0) :: st.leak } := by subst hf; exact exec_ite prog f' c a b env st
+theorem exec_ret_some' (prog : Program) {fuel f' : Nat} (hf : fuel = Fu f') (e : Expr) (env : Env) (st : St) :
+    exec prog fuel (.ret (some e)) env st =
+      match evalE env e with
+      | .error k => .fault k st.leak
+      | .ok v => .ok (.ret (some v)) env st := by subst hf; exact exec_ret_some prog f' e env st
+theorem exec_load' (prog : Program) {fuel f' : Nat} (hf : fuel = Fu f') (x : Nat) (t : Ty) (addr : Expr) (env : Env) (st : St) :
+    exec prog fuel (.load x t addr) env st =
+      match evalE env addr with
+      | .error k => .fault k st.leak
+      | .ok (p, lp) =>
+        if lp ≠ .pub then .fault .taint st.leak else
+        match resolve st.mem p t.bytes with
+        | .error k => .fault k (.rd p t.bytes :: st.leak)
+        | .ok (b, off) =>
+          match readLE (blockBytes st.mem b) off t.bytes with
+          | none => .fault .uninit (.rd p t.bytes :: st.leak)
+          | some v => .ok .normal (setVar env x v) { st with leak := .rd p t.bytes :: st.leak } := by subst hf; exact exec_load prog f' x t addr env st
+theorem exec_store' (prog : Program) {fuel f' : Nat} (hf : fuel = Fu f') (t : Ty) (addr e : Expr) (env : Env) (st : St) :
+    exec prog fuel (.store t addr e) env st =
+      match evalE env addr with
+      | .error k => .fault k st.leak
+      | .ok (p, lp) =>
+        if lp ≠ .pub then .fault .taint st.leak else
+        match evalE env e with
+        | .error k => .fault k st.leak
+        | .ok (v, lv) =>
+          match resolve st.mem p t.bytes with
+          | .error k => .fault k (.wr p t.bytes :: st.leak)
+          | .ok (b, off) =>
+            .ok .normal env { st with leak := .wr p t.bytes :: st.leak,
+                                       mem := setBlock st.mem b (writeLE (blockBytes st.mem b) off v lv t.bytes) } := by subst hf; exact exec_store prog f' t addr e env st
+
+/-- a store whose address, value and target are known: the goal never contains `resolve` applied to a symbolic pointer
+    (the kernel unfolds the well-founded `Nat.div`/`Nat.mod` inside it when it has to compare such terms) -/
+theorem exec_store_ok' (prog : Program) {fuel f' : Nat} (hf : fuel = Fu f') (t : Ty) (addr e : Expr) (env : Env) (st : St)
+    (p v b off n : Nat) (lv : Lab) (bytes : Array LByte) (hn : t.bytes = n)
+    (ha : evalE env addr = .ok (p, .pub)) (hv : evalE env e = .ok (v, lv))
+    (hr : resolve st.mem p n = .ok (b, off)) (hw : writeLE (blockBytes st.mem b) off v lv n = bytes) :
+    exec prog fuel (.store t addr e) env st =
+      .ok .normal env { st with leak := .wr p n :: st.leak, mem := setBlock st.mem b bytes } := by
+  rw [exec_store' prog hf, ha]
+  simp only [ne_eq, not_true_eq_false, if_false, hv, hn, hr, hw]
+
+theorem exec_load_ok' (prog : Program) {fuel f' : Nat} (hf : fuel = Fu f') (x : Nat) (t : Ty) (addr : Expr) (env : Env) (st : St)
+    (p b off n : Nat) (v : LVal) (hn : t.bytes = n)
+    (ha : evalE env addr = .ok (p, .pub)) (hr : resolve st.mem p n = .ok (b, off))
+    (hrd : readLE (blockBytes st.mem b) off n = some v) :
+    exec prog fuel (.load x t addr) env st =
+      .ok .normal (setVar env x v) { st with leak := .rd p n :: st.leak } := by
+  rw [exec_load' prog hf, ha]
+  simp only [ne_eq, not_true_eq_false, if_false, hn, hr, hrd]
+
 /-! ### memory helpers -/
 
 theorem size_writeBytes (bs : Array LByte) (off : Nat) (xs : List LByte) : (writeBytes bs off xs).size = bs.size := by
@@ -63,6 +214,22 @@ theorem getElem?_setBlock (mem : Array Block) (b : Nat) (bytes : Array LByte) (b
     simp [hj, this]
 
 
+theorem setBlock_self (mem : Array Block) (b : Nat) (blk : Block) (h : mem[b]? = some blk) : setBlock mem b blk.bytes = mem := by
+  apply Array.ext_getElem?
+  intro j
+  rw [getElem?_setBlock mem b _ blk h j]
+  by_cases hj : j = b
+  · subst hj; simp [h]
+  · simp [hj]
+
+theorem setBlock_setBlock (mem : Array Block) (b : Nat) (x y : Array LByte) (blk : Block) (h : mem[b]? = some blk) :
+    setBlock (setBlock mem b x) b y = setBlock mem b y := by
+  have h1 : (setBlock mem b x)[b]? = some { blk with bytes := x } := by rw [getElem?_setBlock mem b _ blk h b]; simp
+  apply Array.ext_getElem?
+  intro j
+  rw [getElem?_setBlock _ b _ _ h1 j, getElem?_setBlock mem b _ blk h j, getElem?_setBlock mem b _ blk h j]
+  by_cases hj : j = b <;> simp [hj]
+
 /-! ### the wipe primitive `tinyjambu_clean` (configuration with explicit_bzero) -/
 
 theorem prog_clean : prog[idx_tinyjambu_clean]? = some f_tinyjambu_clean := rfl
@@ -113,6 +280,19 @@ theorem writeBytes_full (bs : Array LByte) (x : LByte) : writeBytes bs 0 (List.r
 
 /-! ### the free functions: every byte of the state object is zero afterwards, nothing else changes -/
 
+/-- wiping a whole object -/
+theorem exec_call_clean_full (fuel : Nat) (env : Env) (st : St) (ep en : Expr) (n b : Nat) (blk : Block)
+    (hb : st.mem[b]? = some blk) (hbase : blk.base = 0) (hsz : blk.bytes.size = n)
+    (hp : evalE env ep = .ok (mkPtr b 0, .pub)) (hn : evalE env en = .ok (n, .pub)) (hn32 : n < 4294967296) (hn0 : n ≠ 0) :
+    exec prog (fuel + 2) (.call none idx_tinyjambu_clean [ep, en]) env st =
+      .ok .normal env { st with leak := .set (mkPtr b 0) n :: st.leak, mem := setBlock st.mem b (Array.replicate n (0, .pub)) } := by
+  have hr : resolve st.mem (mkPtr b 0) 1 = .ok (b, 0) := by
+    have := resolve_mkPtr st.mem b 0 1 blk hb (by omega) (by rw [hbase]; decide) (by omega)
+    rwa [hbase] at this
+  have hbb : blockBytes st.mem b = blk.bytes := by simp [blockBytes, hb]
+  rw [exec_call_clean fuel env st ep en (mkPtr b 0) n b 0 hp hn hn32 hn0 hr (by rw [hbb, hsz]; omega)]
+  rw [hbb, ← hsz, writeBytes_full]
+
 theorem prog_prng_free : prog[idx_tinyjambu_prng_free]? = some f_tinyjambu_prng_free := rfl
 theorem prog_hkdf_free : prog[idx_tinyjambu_hkdf_free]? = some f_tinyjambu_hkdf_free := rfl
 theorem prog_hash_free : prog[idx_tinyjambu_hash_free]? = some f_tinyjambu_hash_free := rfl
@@ -122,22 +302,95 @@ theorem prog_hmac_free : prog[idx_tinyjambu_hmac_free]? = some f_tinyjambu_hmac_
 def wiped (st : St) (b n : Nat) (extra : List Ev) : St :=
   { st with leak := extra ++ st.leak, mem := setBlock st.mem b (Array.replicate n (0, Lab.pub)) }
 
+theorem mkPtr_ne_zero (b off : Nat) : (mkPtr b off != 0) = true := by
+  have : mkPtr b off ≠ 0 := by unfold mkPtr ptrBase; omega
+  simpa using this
+
+/-- `tinyjambu_prng_free` / `tinyjambu_hkdf_free`: a direct call of the wipe primitive with the public object size -/
 theorem prng_free_zeroes (fuel : Nat) (st : St) (b : Nat) (blk : Block) (hb : st.mem[b]? = some blk)
     (hbase : blk.base = 0) (hsz : blk.bytes.size = 96) :
     callFun prog (fuel + 3) idx_tinyjambu_prng_free false [(mkPtr b 0, .pub)] st =
       .ok .normal #[(0, .pub), (mkPtr b 0, .pub)] (wiped st b 96 [.set (mkPtr b 0) 96]) := by
-  have hr : resolve st.mem (mkPtr b 0) 1 = .ok (b, 0) := by
-    have := resolve_mkPtr st.mem b 0 1 blk hb (by omega) (by rw [hbase]; decide) (by omega)
-    rwa [hbase] at this
-  have hbb : blockBytes st.mem b = blk.bytes := by simp [blockBytes, hb]
-  have hc := exec_call_clean fuel #[(mkPtr b 0, Lab.pub)] st (.var 0) (.lit 96) (mkPtr b 0) 96 b 0
-    (by simp [evalE]) (by simp [evalE]) (by decide) (by decide) hr (by rw [hbb, hsz]; decide)
+  have hc := exec_call_clean_full fuel #[(mkPtr b 0, Lab.pub)] st (.var 0) (.lit 96) 96 b blk hb hbase hsz
+    (by simp [evalE]) (by simp [evalE]) (by omega) (by omega)
   simp only [idx_tinyjambu_clean] at hc
-  rw [hbb, show (96 : Nat) = blk.bytes.size from hsz.symm, writeBytes_full, hsz] at hc
   unfold callFun
   rw [show fuel + 3 = (fuel + 2) + 1 from rfl, exec]
   simp only [evalArgs, evalE, List.range, List.range.loop, List.map, List.length_cons, List.length_nil,
     prog_prng_free, f_tinyjambu_prng_free, enterFun, allocLocals, Bool.false_eq_true, if_false]
-  simp [evalE, hc, leaveFun, assignDst, extract_setBlock, wiped, -List.reduceReplicate, -Array.reduceReplicate]
+  simp only [Nat.zero_add, List.getElem?_toArray, List.getElem?_cons_succ, List.getElem?_cons_zero, reduceCtorEq, if_false,
+    List.length_cons, List.length_nil, ne_eq, not_true_eq_false, Nat.sub_self, List.replicate_zero, List.append_nil]
+  rw [hc]
+  simp only [leaveFun, assignDst, extract_setBlock, wiped, List.cons_append, List.nil_append]
+
+theorem hkdf_free_zeroes (fuel : Nat) (st : St) (b : Nat) (blk : Block) (hb : st.mem[b]? = some blk)
+    (hbase : blk.base = 0) (hsz : blk.bytes.size = 72) :
+    callFun prog (fuel + 3) idx_tinyjambu_hkdf_free false [(mkPtr b 0, .pub)] st =
+      .ok .normal #[(0, .pub), (mkPtr b 0, .pub)] (wiped st b 72 [.set (mkPtr b 0) 72]) := by
+  have hc := exec_call_clean_full fuel #[(mkPtr b 0, Lab.pub)] st (.var 0) (.lit 72) 72 b blk hb hbase hsz
+    (by simp [evalE]) (by simp [evalE]) (by omega) (by omega)
+  simp only [idx_tinyjambu_clean] at hc
+  unfold callFun
+  rw [show fuel + 3 = (fuel + 2) + 1 from rfl, exec]
+  simp only [evalArgs, evalE, List.range, List.range.loop, List.map, List.length_cons, List.length_nil,
+    prog_hkdf_free, f_tinyjambu_hkdf_free, enterFun, allocLocals, Bool.false_eq_true, if_false]
+  simp only [Nat.zero_add, List.getElem?_toArray, List.getElem?_cons_succ, List.getElem?_cons_zero, reduceCtorEq, if_false,
+    List.length_cons, List.length_nil, ne_eq, not_true_eq_false, Nat.sub_self, List.replicate_zero, List.append_nil]
+  rw [hc]
+  simp only [leaveFun, assignDst, extract_setBlock, wiped, List.cons_append, List.nil_append]
+
+/-- the body of `tinyjambu_hash_free` executed with the state pointer in variable 0 -/
+theorem exec_hash_free_body (fuel : Nat) (st : St) (b : Nat) (blk : Block) (hb : st.mem[b]? = some blk)
+    (hbase : blk.base = 0) (hsz : blk.bytes.size = 56) :
+    exec prog (fuel + 3) f_tinyjambu_hash_free.body #[(mkPtr b 0, Lab.pub)] st =
+      .ok .normal #[(mkPtr b 0, .pub)] (wiped st b 56 [.set (mkPtr b 0) 56, .br true]) := by
+  have hc := exec_call_clean_full fuel #[(mkPtr b 0, Lab.pub)] { st with leak := .br true :: st.leak } (.var 0) (.lit 56) 56 b blk hb hbase hsz
+    (by simp [evalE]) (by simp [evalE]) (by omega) (by omega)
+  simp only [idx_tinyjambu_clean] at hc
+  simp only [f_tinyjambu_hash_free]
+  rw [show fuel + 3 = (fuel + 2) + 1 from rfl, exec]
+  simp only [evalE, List.getElem?_toArray, List.getElem?_cons_zero, reduceCtorEq, if_false, ne_eq, not_true_eq_false,
+    mkPtr_ne_zero, if_true]
+  rw [hc]
+  simp only [wiped, List.cons_append, List.nil_append]
+
+theorem hash_free_zeroes (fuel : Nat) (st : St) (b : Nat) (blk : Block) (hb : st.mem[b]? = some blk)
+    (hbase : blk.base = 0) (hsz : blk.bytes.size = 56) :
+    callFun prog (fuel + 4) idx_tinyjambu_hash_free false [(mkPtr b 0, .pub)] st =
+      .ok .normal #[(0, .pub), (mkPtr b 0, .pub)] (wiped st b 56 [.set (mkPtr b 0) 56, .br true]) := by
+  have hc := exec_hash_free_body fuel st b blk hb hbase hsz
+  unfold callFun
+  rw [show fuel + 4 = (fuel + 3) + 1 from rfl, exec]
+  simp only [evalArgs, evalE, List.range, List.range.loop, List.map, List.length_cons, List.length_nil,
+    prog_hash_free, enterFun, allocLocals, Bool.false_eq_true, if_false]
+  simp only [Nat.zero_add, List.getElem?_toArray, List.getElem?_cons_succ, List.getElem?_cons_zero, reduceCtorEq, if_false,
+    List.length_cons, List.length_nil, ne_eq, not_true_eq_false, List.append_nil,
+    show f_tinyjambu_hash_free.nparams = 1 from rfl, show f_tinyjambu_hash_free.nvars = 1 from rfl,
+    show f_tinyjambu_hash_free.allocs = [] from rfl, Nat.sub_self, List.replicate_zero, allocLocals]
+  rw [show ({ mem := st.mem, ent := st.ent, leak := st.leak } : St) = st from rfl, hc]
+  simp only [leaveFun, assignDst, wiped, extract_setBlock]
+
+/-- `tinyjambu_hmac_free` delegates to `tinyjambu_hash_free` on the embedded hash state (same 56 bytes) -/
+theorem hmac_free_zeroes (fuel : Nat) (st : St) (b : Nat) (blk : Block) (hb : st.mem[b]? = some blk)
+    (hbase : blk.base = 0) (hsz : blk.bytes.size = 56) :
+    callFun prog (fuel + 6) idx_tinyjambu_hmac_free false [(mkPtr b 0, .pub)] st =
+      .ok .normal #[(0, .pub), (mkPtr b 0, .pub)] (wiped st b 56 [.set (mkPtr b 0) 56, .br true, .br true]) := by
+  have hc := exec_hash_free_body fuel { st with leak := .br true :: st.leak } b blk hb hbase hsz
+  unfold callFun
+  rw [show fuel + 6 = (fuel + 5) + 1 from rfl, exec]
+  simp only [evalArgs, evalE, List.range, List.range.loop, List.map, List.length_cons, List.length_nil,
+    prog_hmac_free, f_tinyjambu_hmac_free, enterFun, allocLocals, Bool.false_eq_true, if_false]
+  simp only [Nat.zero_add, List.getElem?_toArray, List.getElem?_cons_succ, List.getElem?_cons_zero, reduceCtorEq, if_false,
+    List.length_cons, List.length_nil, ne_eq, not_true_eq_false, List.append_nil, Nat.sub_self, List.replicate_zero]
+  rw [show fuel + 5 = (fuel + 4) + 1 from rfl, exec]
+  simp only [evalE, List.getElem?_toArray, List.getElem?_cons_zero, reduceCtorEq, if_false, ne_eq, not_true_eq_false,
+    mkPtr_ne_zero, if_true]
+  rw [show fuel + 4 = (fuel + 3) + 1 from rfl, exec]
+  simp only [evalArgs, evalE, List.getElem?_toArray, List.getElem?_cons_zero, reduceCtorEq, if_false,
+    show prog[24]? = some f_tinyjambu_hash_free from rfl, List.length_cons, List.length_nil, ne_eq, not_true_eq_false,
+    enterFun, allocLocals, show f_tinyjambu_hash_free.nparams = 1 from rfl, show f_tinyjambu_hash_free.nvars = 1 from rfl,
+    show f_tinyjambu_hash_free.allocs = [] from rfl, Nat.sub_self, List.replicate_zero, List.append_nil, Nat.zero_add]
+  rw [hc]
+  simp only [leaveFun, assignDst, wiped, extract_setBlock, List.cons_append, List.nil_append]
 
 end TJ.MiniC
